@@ -1,12 +1,17 @@
-(* C38 obligation: every index access of generate_fdiff_weights_vector is inside its vector
-   and the loops terminate, for every non-empty grid with len_g*(max_deriv+1) < 2^32 --
-   whatever the grid values are (repeated points included). *)
+(* C38 obligation (memory safety, total): for EVERY grid of fewer than 2^32 points, every
+   `unsigned` max_deriv and every centre -- whatever the grid values are -- the function either
+   returns len_g*(max_deriv+1) weights (non-empty grid, len_g*(max_deriv+1) < 2^32) or throws
+   SymEngineException (empty grid, index space too large).  It never accesses grid or weights
+   outside the vector (no ErrOOB) and its loops terminate. *)
 From SE Require Import C38.FdiffSpec C38.FdiffRefine.
 Theorem C38_fdiff_in_bounds :
   forall (grid : list Qc) (max_deriv : N) (around : Qc),
-    guard_size (length grid) max_deriv = true ->
-    exists w : list val,
-      fdiff grid max_deriv around = Ok w /\
-      length w = Nat.mul (length grid) (Nat.add (N.to_nat max_deriv) 1).
-Proof. exact fdiff_in_bounds. Qed.
+    N.lt max_deriv W32 -> N.lt (N.of_nat (length grid)) W32 ->
+    (guard_size (length grid) max_deriv = true /\
+     exists w : list val,
+       fdiff grid max_deriv around = Ok w /\
+       length w = Nat.mul (length grid) (Nat.add (N.to_nat max_deriv) 1))
+    \/ (guard_size (length grid) max_deriv = false /\
+        fdiff grid max_deriv around = ErrExn EXN_SYMENGINE).
+Proof. exact fdiff_total. Qed.
 Print Assumptions C38_fdiff_in_bounds.
